@@ -93,3 +93,5 @@ LEVEL = {
                  'duplicate-free / globally ordered for every correct sort) + in-process multi-server clusters replayed against one '
                  'collection-level reference',
 }
+
+CFG['rule'] = CFG['rule'] + ' ' + 'Closing a server also shuts the RPC clients the other nodes have cached for it (what a process death leaves behind); the first search / update / search after a close go through the same entry node as before it, then the history switches to a node without cached clients.'
